@@ -4,7 +4,7 @@
    (gen/GenMsg.v: the Type* constants joined with msgTypeMap). *)
 From FRP Require Import Model.Frame Model.MsgObj Proofs.FrameProofs Proofs.MsgObjProofs
   Proofs.RegistryCheck gen.GenMsg Golden.GoldenMsg.
-From FRP Require Import Model.FrameSys Proofs.FrameSysProofs.
+From FRP Require Import Model.FrameSys Proofs.FrameSysProofs Model.FrameSysLogin Proofs.FrameSysLoginProofs.
 From FRP Require Import Model.MsgRec Proofs.MsgRecProofs gen.GenMsgRec gen.GenMsgRecThms.
 Open Scope Z_scope.
 
@@ -162,12 +162,42 @@ Theorem C17_expected_first_message_dispatched : forall reg tl tw tv force need w
 Proof. exact fs_expected_first_dispatched. Qed.
 Print Assumptions C17_expected_first_message_dispatched.
 
-(* the only first message that can change the session table is a Login its handler ACCEPTS *)
+(* the only first messages that can change the session table are a Login its handler ACCEPTS and a
+   Login whose handler crashes the process (HCrash: every session is gone) *)
 Theorem C17_first_message_session_table : forall reg tl tw tv force need wsp st ev st' out,
   fs_first_step reg tl tw tv force need wsp st ev = Some (st', out) ->
-  st' = st \/ exists rid, fe_handler ev = HAccept rid /\ st' = fs_ins_session rid st /\ fo_act out = ActLogin.
+  (st' = st /\ fo_close out <> ServerDown) \/
+  (exists rid, fe_handler ev = HAccept rid /\ st' = fs_ins_session rid st /\ fo_act out = ActLogin /\
+               fo_close out = KeepOpen) \/
+  (fe_handler ev = HCrash /\ st' = [] /\ fo_act out = ActLogin /\ fo_close out = ServerDown).
 Proof. exact fs_first_step_state. Qed.
 Print Assumptions C17_first_message_session_table.
+
+(* the process can only die through a crashing handler behind a Login that was dispatched; an
+   unexpected or malformed first message can never do it *)
+Theorem C17_server_down_only_by_crashing_login_handler : forall reg tl tw tv force need wsp st ev st' out,
+  fs_first_step reg tl tw tv force need wsp st ev = Some (st', out) -> fo_close out = ServerDown ->
+  fe_handler ev = HCrash /\ fo_act out = ActLogin /\ ~ ~ fs_expected_first reg tl tw tv force need wsp ev.
+Proof. exact fs_down_only_by_crash. Qed.
+Print Assumptions C17_server_down_only_by_crashing_login_handler.
+
+(* ... and the handler of an authenticated Login never crashes: NewControl's make(chan, poolCount+10) is the
+   only allocation sized by a peer-supplied integer, and for EVERY integer pool_count and every non-negative
+   transport.maxPoolCount the clamp translated from server/control.go today (gen/GenAlloc.v, unit T8a) keeps
+   the size in makechan's domain (C16's lemma chan_cap_nonneg = C16_chan_cap_never_negative) *)
+Theorem C17_login_handler_never_crashes : forall pool_count max_pool_count rid,
+  0 <= max_pool_count -> fs_login_oracle pool_count max_pool_count rid = HAccept rid.
+Proof. exact fs_login_oracle_accepts. Qed.
+Print Assumptions C17_login_handler_never_crashes.
+
+(* hence: dispatching an accepted first message never takes the server down, and keeps every run id *)
+Theorem C17_accepted_login_never_takes_server_down :
+  forall reg tl tw tv force need wsp st ev st' out pool_count max_pool_count rid,
+  0 <= max_pool_count -> fe_handler ev = fs_login_oracle pool_count max_pool_count rid ->
+  fs_first_step reg tl tw tv force need wsp st ev = Some (st', out) ->
+  fo_close out <> ServerDown /\ (forall r, In r (map fst st) -> In r (map fst st')).
+Proof. exact fs_accepted_login_survives. Qed.
+Print Assumptions C17_accepted_login_never_takes_server_down.
 
 (* any number of unexpected / malformed first messages, in any order: the server state is what it was *)
 Theorem C17_bad_first_messages_history : forall reg tl tw tv force need wsp jok jnull evs st,
@@ -214,7 +244,8 @@ Proof. exact fs_stream_step_confined. Qed.
 Print Assumptions C17_decode_error_ends_only_that_session.
 
 (* whatever arrives on other connections and other sessions, in any number and order, a session the
-   events do not legitimately concern (its own channel ending; an ACCEPTED login under its run id)
+   events do not legitimately concern (its own channel ending; an ACCEPTED login under its run id; a handler
+   crash, excluded for Login by C17_login_handler_never_crashes)
    stays in the table with its proxies *)
 Theorem C17_other_sessions_untouched : forall reg tl tw tv force need wsp jok jnull es st st' x,
   fs_run reg tl tw tv force need wsp jok jnull st es = Some st' -> In x st ->
